@@ -73,7 +73,7 @@ LibraryRpcs == {"GetBook", "CreateBook", "UpdateBook", "DeleteBook", "ListBooks"
    \cup (IF Has("m_lro_empty") THEN {"PurgeBooks"} ELSE {}) \cup (IF Has("m_paged_map") THEN {"ListById"} ELSE {})
    \cup (IF Has("m_paged_legacy") THEN {"ListOld"} ELSE {}) \cup (IF Has("m_kw") THEN {"Import"} ELSE {})
    \cup (IF Has("m_unsafe") THEN {"CreateChannel"} ELSE {}) \cup (IF Has("h_nested_var") THEN {"RenameBook"} ELSE {})
-   \cup (IF Has("m_dep_request") THEN {"CheckDep"} ELSE {}) \cup (IF Has("m_raw_operation") THEN {"StartRaw"} ELSE {})
+   \cup (IF Has("m_dep_request") THEN {"CheckDep"} ELSE {}) \cup (IF Has("f_deppkg") THEN {"FetchDep"} ELSE {}) \cup (IF Has("m_raw_operation") THEN {"StartRaw"} ELSE {})
    \cup (IF Has("f_map") /\ Has("s_flatten") THEN {"LabelBook"} ELSE {})
    \* a second target file: one RPC takes a (flattened) parameter named like that file's module, another returns one of its types
    \cup (IF Has("f_crossfile") THEN {"StampBook", "GetAuthor"} ELSE {})
@@ -111,7 +111,7 @@ SnakeOf == [ GetBook |-> "get_book", CreateBook |-> "create_book", UpdateBook |-
              ChatBooks |-> "chat_books", ExportBooks |-> "export_books", PurgeBooks |-> "purge_books", ListById |-> "list_by_id",
              ListOld |-> "list_old", Import |-> "import_", CreateChannel |-> "create_channel", RenameBook |-> "rename_book",
              CheckDep |-> "check_dep", StartRaw |-> "start_raw", LabelBook |-> "label_book",
-             StampBook |-> "stamp_book", GetAuthor |-> "get_author", ArchiveBook |-> "archive_book" ]
+             StampBook |-> "stamp_book", GetAuthor |-> "get_author", ArchiveBook |-> "archive_book", FetchDep |-> "fetch_dep" ]
 TestKinds == (IF HasT("grpc") THEN {"grpc"} ELSE {}) \cup (IF HasT("grpc") /\ HasAsync THEN {"grpc-async"} ELSE {})
              \cup (IF HasT("rest") THEN {"rest"} ELSE {})
 RequiredTests == { [rpc |-> SnakeOf[r], kind |-> k, pager |-> FALSE] : r \in LibraryRpcs, k \in TestKinds }
